@@ -21,7 +21,8 @@ RULE = ('(a) eigen-solvers: random real square matrices (2..8, rational entries,
         'negative; two-state models are compared with the exact lambda_2 = T00+T11-1. Non-trivial: a '
         'non-positive or complex eigenvalue or >= 2 timescales.'
         ' Added classes: 17..20 states with truncated requests (the k requested eigenvalues must be the k largest of the full call), driven rings with eigenvalues near the whole unit circle, Fortran/transposed/strided layouts (same eigen-pairs).'
-        ' Later: slow reversible chains (lambda_2 within 1e-5 of one), lag lists with an unusable lag in front, reducible models with eigenvalue one twice, matrices intact after eigenvalue-only calls, a second identical call after the result was overwritten.')
+        ' Later: slow reversible chains (lambda_2 within 1e-5 of one), lag lists with an unusable lag in front, reducible models with eigenvalue one twice, matrices intact after eigenvalue-only calls, a second identical call after the result was overwritten.'
+        ' Fifth/sixth batch: typed (unsigned) lag lists, near-symmetric matrices, a genuine positive eigenvalue of 5e-9.')
 TRUSTED = ['the spectrum is LAPACK\'s (validated a posteriori by exact residuals)', 'ln evaluated by libm in the harness',
            'eigenvalues within 1e-9 of 0 or 1 are treated as boundary (NaN or any non-negative value accepted)']
 ASSUMPTIONS = []
